@@ -9,8 +9,8 @@ use serde::{Deserialize, Serialize};
 pub const LOCALS: [&str; 9] = ["a", "b", "c", "d", "e", "f", "A", "id", "\u{e9}l"];
 pub const URIS: [&str; 4] = ["urn:x", "urn:y", "urn:z", "urn:w?a=1&b=\"2\""];
 pub const PREFIXES: [&str; 3] = ["p", "q", "r"];
-pub const TEXTS: [&str; 18] = ["\u{c3}\u{a9} 1\u{c2}\u{bd}", "a]]]>b", "t", "x y", " ", "hello", "<&>", "é", "a]]>b", "  \n ", "1", "\"q'", "zz", "\u{1F600}", "a\rb", "]]", ">", "a long run of character data, long enough to cross the small-string and buffer sizes that short samples never reach; 0123456789 0123456789 0123456789 0123456789 0123456789 0123456789 <&> \u{1F600} end"];
-pub const ATTR_VALUES: [&str; 13] = ["v", "", "x y", "<&\">", "é", "w'w", "1", "long value here", " a1 ", "first  second", "a\tb", "l1\nl2", "cr\rx"];
+pub const TEXTS: [&str; 19] = ["a\u{85}b\u{2028}c", "\u{c3}\u{a9} 1\u{c2}\u{bd}", "a]]]>b", "t", "x y", " ", "hello", "<&>", "é", "a]]>b", "  \n ", "1", "\"q'", "zz", "\u{1F600}", "a\rb", "]]", ">", "a long run of character data, long enough to cross the small-string and buffer sizes that short samples never reach; 0123456789 0123456789 0123456789 0123456789 0123456789 0123456789 <&> \u{1F600} end"];
+pub const ATTR_VALUES: [&str; 14] = ["v", "", "x y", "<&\">", "é", "w'w", "1", "long value here", " a1 ", "first  second", "a\tb", "l1\nl2", "cr\rx", "n\u{85}l\u{2028}s"];
 pub const COMMENTS: [&str; 6] = ["c", " note ", "", "a-b", "<x>", "\u{e9} \u{1F600}"];
 pub const XML_NS: &str = "http://www.w3.org/XML/1998/namespace";
 pub const PI_TARGETS: [&str; 4] = ["pi", "target", "x-y", "\u{3c0}"];
@@ -149,12 +149,13 @@ pub fn gen_elem(rng: &mut Rng, cfg: &GenCfg, scope: &Scope, depth: usize, ids: &
         }
     }
     if cfg.many_decls_pct > 0 && rng.pct(cfg.many_decls_pct) {
-        let mut idx: Vec<usize> = (0..12).collect();
+        let wide = rng.pct(35);
+        let mut idx: Vec<usize> = (0..if wide { 24 } else { 12 }).collect();
         for i in (1..idx.len()).rev() {
             let j = rng.below(i + 1);
             idx.swap(i, j);
         }
-        for i in idx.into_iter().take(rng.range(9, 12)) {
+        for i in idx.into_iter().take(if wide { rng.range(17, 22) } else { rng.range(9, 12) }) {
             let prefix = format!("d{}", i);
             let uri = if rng.pct(50) { rng.pick(&URIS).to_string() } else { format!("urn:d{}", i) };
             decls.push((prefix.clone(), uri.clone()));
